@@ -6,7 +6,9 @@ from gen.rollcommon import model_lines, compare, classify, describe, extra_cover
 RULE = ("sweep: min_size in {0,1,2,100} x pre-existing active file in {absent, 0, min-1, min, min+1 bytes} x first "
         "build in append/truncate mode x rollers {delete, window(base 0/1, count 0..3, plain/.gz)} x histories: "
         "1-5 appends; appends + restart (either mode) + appends (a second lifetime over the files left behind); and a "
-        "burst of 8 barrier-released threads issuing the first appends followed by sequential appends. "
+        "burst of 8 barrier-released threads issuing the first appends followed by sequential appends; "
+        "for half of the combinations also a history whose first record(s) hit a roller set to FAIL (Roll::roll "
+        "returns Err before touching anything): the request must not be repeated on later records. "
         "non-trivial = at least one append; distinct = distinct case line")
 ASSUMPTIONS = list(rc.COMMON_ASSUMPTIONS)
 EXHAUSTIVE = {"quick": False, "thorough": False}
@@ -17,6 +19,7 @@ def corpus():
         [[1, 2], [1, 0, 2, 0], [1, b"abc"], 1,
          [[0, [b"1"]], [0, [b"2"]], [1, 1], [0, [b"3"]], [1, 1], [0, [b"4"]]]],
         [[1, 0], [1, 1, 1, 1], [1, b"a"], 0, [[0, [b"1"]]]],
+        [[1, 1], [1, 0, 1, 0], [1, b"a"], 1, [[7, [b"1"]], [0, [b"2"]], [0, [b"3"]]]],
     ]
 
 
@@ -56,8 +59,20 @@ def cases(rng, tier):
                                 ops.append([1, 1])
                                 ops.append(rc.op_append(rng, "c", rng.range(0, 4)))
                         out.append([[1, m], rl, prev, a0, ops])
+                        # the same start-up with a roller that FAILS on the first record(s), then further records
+                        if rng.chance(1, 2):
+                            ops2 = [[7, rc.chunked(rng, rc.rec_bytes(rng, "f%d" % j, rng.choice([0, 1, 3, 7])))]
+                                    for j in range(rng.range(1, 2))]
+                            for j in range(rng.range(1, 4)):
+                                ops2.append(rc.op_append(rng, "g%d" % j, rng.choice([0, 1, 2, 5, m % 120])))
+                            if rng.chance(1, 3):
+                                ops2.append([1, rng.choice([1, 1, 0])])
+                                ops2.append([7 if rng.chance(1, 2) else 0,
+                                             rc.chunked(rng, rc.rec_bytes(rng, "h", rng.range(0, 4)))])
+                                ops2.append(rc.op_append(rng, "i", rng.range(0, 4)))
+                            out.append([[1, m], rl, prev, a0, ops2])
     return out
 
 
 def nontrivial(c):
-    return c[0][0] == 1 and any(o[0] in (0, 2) for o in c[4])
+    return c[0][0] == 1 and any(o[0] in (0, 2, 7) for o in c[4])
